@@ -47,12 +47,17 @@
 (* spec-level mutants: both must FAIL, i.e. the scene then depends on the       *)
 (* checker's order, which is an environment variable.                           *)
 (*                                                                            *)
+(* BlanketSkips = TRUE is a third spec-level mutant: acceptance itself (not the  *)
+(* stream) depends on the check order; it must FAIL too.                        *)
+(*                                                                            *)
 (* The permuted group (rroots) is any set of roots whose relative order the     *)
 (* code takes from an unordered collection: random values referenced only from  *)
 (* requirements (gathered in sets before repo commit 53f03332), or the random   *)
 (* properties of an object whose sampling order comes out of specifier          *)
 (* resolution (Specifier.requiredProperties, a set of names that must be        *)
-(* sorted).  roots = pre \o perm(rroots) \o post.                               *)
+(* sorted), or the random parameters of one `param` statement (veneer.param),   *)
+(* or the random locals of a modular scenario's setup block                     *)
+(* (DynamicScenario._makeLocalsSnapshot, a set of names sorted since 0972e522).  roots = pre \o perm(rroots) \o post.                               *)
 (*                                                                            *)
 (* Program format = Sampler.tla's.  A dependency order is a VARIANT of the    *)
 (* program: the harness emits one entry of Progs per permutation of the       *)
@@ -68,6 +73,7 @@ EXTENDS Sampler
 CONSTANTS OrderedDeps,    \* TRUE: insertion ordered (ideal)  FALSE: set ordered (as implemented)
           RestoreRng,     \* "always" (ideal) | "never" | "accepted" (only when the sample is accepted)
           FullPairs,      \* TRUE: copy 1 ranges over all environments too; FALSE: reference env
+          BlanketSkips,   \* FALSE (ideal) | TRUE: spec-level mutant, see CheckOne
           MaxPrior,       \* bound on scenes generated before re-seeding
           R               \* raw outcomes per stream element
 
@@ -166,7 +172,10 @@ SaveRng ==
 CheckOne(r) ==
   /\ pc = "checking" /\ r \in active \ chk
   /\ \E c \in 0..Reqs[r].ic : Blind(c) /\ pos' = pos + c
-  /\ chk' = chk \cup {r}
+  \* mutant BlanketSkips: once requirement 1 (think: the optional surface-only collision check)
+  \* has passed, requirement 2 (the exact pairwise check) is skipped as "redundant": whether a
+  \* sample is accepted then depends on the order of the checks -- must FAIL
+  /\ chk' = IF BlanketSkips /\ r = 1 /\ Holds(Reqs[r].c, val) THEN chk \cup {1, 2} ELSE chk \cup {r}
   /\ pc' = IF Holds(Reqs[r].c, val) THEN "checking" ELSE "rejecting"
   /\ UNCHANGED <<pid, k, active, iter, j, val, done, ws, hist, turn, np, saved, obs1, env1>>
 
